@@ -361,8 +361,9 @@ def oracle(case, rec):
             key = (strip_annot(str(r.FeatureA), known), strip_annot(str(r.FeatureB), known))
             if key in got2:
                 raise Violation(f'pairwise_ranks.tsv lists the ordered pair {key} twice', kind='C08/output')
-            got2[key] = float(r.Score)
-            scores.append(float(r.Score))
+            sc_ = float(r.Score) if str(r.Score) != '' else math.nan      # an undefined (NaN) score is written as an empty cell
+            got2[key] = sc_
+            scores.append(sc_)
         if not same_table(got2, expected, tol=1e-7):
             raise Violation(f'pairwise_ranks.tsv differs from the per-pair median: {_first_diff(got2, expected)}', kind='C08/output')
         if any(scores[i] > scores[i + 1] for i in range(len(scores) - 1)):
